@@ -3,10 +3,10 @@ package sim
 import (
 	"bytes"
 	"crypto/rand"
-	"errors"
-	"io"
 	"encoding/json"
+	"errors"
 	"fmt"
+	"io"
 	"strings"
 	"testing"
 	"testing/synctest"
